@@ -119,9 +119,11 @@ def _build(prog, d, elm, placed):
                 e = cls(name=s['name'], **args)
             else:
                 e = cls(name=s['name'], reverse=s.get('reverse', False), **args)
-            if prog.get('chain') and here is not None and _same_point(phys(prog, s.get('at', s.get('p'))), here):
+            if prog.get('chain') and (here is None or _same_point(phys(prog, s.get('at', s.get('p'))), here)):
                 # chained placement, the usual way of drawing: the symbol starts where the previous one ended, two-terminal symbols
-                # get a direction and a length, one-terminal symbols are simply added
+                # get a direction and a length, one-terminal symbols are simply added (the very first symbol is anchored with .at())
+                if here is None:
+                    e = e.at(phys(prog, s.get('at', s.get('p'))))
                 if 'at' not in s:
                     (x0, y0), (x1, y1) = phys(prog, s['p']), phys(prog, s['q'])
                     dx, dy = x1 - x0, y1 - y0
